@@ -81,9 +81,15 @@ func queryMatches(r Rule, in Input) Tri {
 // sub-selects, statements without a FROM, UPDATE / DELETE targets and UNIONs are not promised anything: Undecided.
 func tablesMatch(allow bool, rules []Rule, s *censorgen.Stmt) (Tri, string) {
 	direct, sub := 0, 0
+	// soft: a direct table that is listed only up to its schema qualifier (rule "t1" / statement "backup.t1" or the other
+	// way round). An allow rule admits only the names it spells; whether a DENY rule also stops the other spelling is
+	// promised nowhere (qual.go)
+	soft := 0
 	for _, t := range s.Direct {
 		if has(rules, t) {
 			direct++
+		} else if listedUpToQualifier(rules, t) {
+			soft++
 		}
 	}
 	for _, t := range s.Sub {
@@ -110,6 +116,8 @@ func tablesMatch(allow bool, rules []Rule, s *censorgen.Stmt) (Tri, string) {
 		return Yes, ""
 	case direct > 0:
 		return Undecided, "table-rule-vs-" + s.Kind
+	case soft > 0:
+		return Undecided, "deny-table-rule-vs-other-qualification-of-the-name"
 	case sub > 0:
 		return Undecided, "table-only-in-subselect"
 	}
@@ -159,6 +167,10 @@ func patternMatches(p *censorgen.Pattern, src, s *censorgen.Stmt) (Tri, string) 
 		}
 		return Undecided, rel
 	}
+	// schema-qualified relatives of one statement (censorgen/qual.go, qual.go): decided occurrence by occurrence
+	if t, rel, ok := qualPatternMatches(p, src, s); ok {
+		return t, rel
+	}
 	if strings.Join(src.Direct, ",") != strings.Join(s.Direct, ",") {
 		return No, "othertable" // derived from a statement over another table
 	}
@@ -173,6 +185,9 @@ func patternMatchesIn(hkind string, p *censorgen.Pattern, src, s *censorgen.Stmt
 	t, rel := patternMatches(p, src, s)
 	if hkind == "deny" && t == No && strings.HasPrefix(rel, "rows:") {
 		return Undecided, "rows-relative-vs-deny-pattern"
+	}
+	if hkind == "deny" && t == No && strings.HasPrefix(rel, "qual:") && !strings.HasPrefix(rel, "qual:other-schema") {
+		return Undecided, "qual-one-side-unqualified-vs-deny-pattern"
 	}
 	return t, rel
 }
